@@ -42,15 +42,17 @@ var progCPU atomic.Int64 // cpu ms at the start of the current run
 
 // ReplayFile is the self-contained description of a violating run.
 type ReplayFile struct {
-	Property  string             `json:"property"`
-	Spec      *RunSpec           `json:"spec"`
-	Violation Violation          `json:"violation"`
-	All       []Violation        `json:"all_violations,omitempty"`
-	Ref       [][]Result         `json:"reference_results,omitempty"`
-	Sim       [][]Result         `json:"simulation_results,omitempty"`
-	Trace     []simrt.TraceEvent `json:"trace,omitempty"`
-	Minimised bool               `json:"minimised"`
-	Generate  *struct {
+	Property   string             `json:"property"`
+	Spec       *RunSpec           `json:"spec"`
+	Violation  Violation          `json:"violation"`
+	All        []Violation        `json:"all_violations,omitempty"`
+	Ref        [][]Result         `json:"reference_results,omitempty"`
+	Sim        [][]Result         `json:"simulation_results,omitempty"`
+	Trace      []simrt.TraceEvent `json:"trace,omitempty"`
+	Minimised  bool               `json:"minimised"`
+	TraceHash  uint64             `json:"trace_hash,omitempty"`  // scheduler trace of the recorded execution
+	ResultHash uint64             `json:"result_hash,omitempty"` // hash over all simulation-phase results
+	Generate   *struct {
 		VerifSeed uint64 `json:"verif_seed"`
 		Run       int    `json:"run"`
 		Tier      string `json:"tier"`
@@ -84,12 +86,34 @@ func setupFontDir(t *testing.T, scratch, repo string) string {
 	return dir
 }
 
+// watchdog runs outside the bubbles, on the real clock. It stops the worker (exit 3) when one run
+// burns more CPU than allowed, or when a run makes no progress at all for idleLimit of wall time
+// (blocked on a real lock or channel: possible only outside simulations, e.g. a call that blocks
+// when run alone).
 func watchdog(out *os.File, budgetS, refBudgetS float64) {
+	const idleLimit = 240 * time.Second
+	lastRun, lastPhase, lastCPU, since := int64(-1), "", 0.0, time.Now()
 	for {
 		time.Sleep(500 * time.Millisecond)
 		start := float64(progCPU.Load())
 		if start < 0 {
+			since = time.Now()
 			continue
+		}
+		{
+			ph, _ := progPhase.Load().(string)
+			cpu := cpuMS()
+			if progRun.Load() != lastRun || ph != lastPhase || cpu-lastCPU > 50 {
+				lastRun, lastPhase, lastCPU, since = progRun.Load(), ph, cpu, time.Now()
+			} else if time.Since(since) > idleLimit {
+				line := fmt.Sprintf(`{"watchdog":true,"idle":true,"run":%d,"phase":%q,"cpu_ms":%.0f}`+"\n", progRun.Load(), ph, cpu-start)
+				if out != nil {
+					out.WriteString(line)
+					out.Sync()
+				}
+				os.Stdout.WriteString(line)
+				os.Exit(3)
+			}
 		}
 		ph, _ := progPhase.Load().(string)
 		limit := budgetS
@@ -161,6 +185,7 @@ func TestWorker(t *testing.T) {
 	h := &Harness{Resources: filepath.Join(*fRepo, "resources"), NSites: *fSites, KeepTrace: *fTrace}
 	h.FontDir = setupFontDir(t, scratch, *fRepo)
 	h.Scratch = scratch
+	h.QuiescenceWait = synctest.Wait
 	if err := SetupSysDirs(scratch, h.Resources); err != nil {
 		t.Fatal(err)
 	}
@@ -200,6 +225,13 @@ func TestWorker(t *testing.T) {
 		done := make(chan struct{})
 		go func() {
 			defer close(done)
+			defer func() {
+				// a task that is blocked forever (reported as a deadlock violation) makes the bubble
+				// end with "deadlock: main bubble goroutine has exited but blocked goroutines remain"
+				if r := recover(); r != nil && rep == nil {
+					panic(r)
+				}
+			}()
 			synctest.Test(t, func(t *testing.T) {
 				rep, oc, err = h.Execute(spec)
 			})
@@ -256,6 +288,13 @@ func TestWorker(t *testing.T) {
 		rep, oc := execute(rf.Spec)
 		line, _ := json.Marshal(rep)
 		fmt.Printf("REPLAY-REPORT %s\n", line)
+		if rf.TraceHash != 0 && rep.Stats != nil {
+			if rep.Stats.TraceHash == rf.TraceHash && rep.ResultHash == rf.ResultHash {
+				fmt.Printf("REPLAY-EXACT scheduler trace and results identical to the recorded execution\n")
+			} else {
+				fmt.Printf("REPLAY-DIFFERS trace %x (recorded %x) results %x (recorded %x) diverged=%v\n", rep.Stats.TraceHash, rf.TraceHash, rep.ResultHash, rf.ResultHash, rep.Stats.Diverged)
+			}
+		}
 		if w != nil {
 			w.Write(line)
 			w.WriteByte('\n')
@@ -283,7 +322,10 @@ func TestWorker(t *testing.T) {
 func writeReplay(t *testing.T, dir string, spec *RunSpec, rep *RunReport, oc *Outcome) string {
 	cp := *spec
 	cp.Sim.Replay = oc.Recorded
-	rf := ReplayFile{Property: "C20", Spec: &cp, All: rep.Violations, Ref: oc.Ref, Sim: oc.Sim, Trace: oc.Trace}
+	rf := ReplayFile{Property: "C20", Spec: &cp, All: rep.Violations, Ref: oc.Ref, Sim: oc.Sim, Trace: oc.Trace, ResultHash: rep.ResultHash}
+	if rep.Stats != nil {
+		rf.TraceHash = rep.Stats.TraceHash
+	}
 	if len(rep.Violations) > 0 {
 		rf.Violation = rep.Violations[0]
 	} else {
